@@ -76,6 +76,9 @@ Proof.
     rewrite aget_adel in H. destruct (c =? cid); [discriminate | exists x; auto].
 Qed.
 
+Lemma send_cell_exits' s dst cid mid ls : exits (fst (fst (send_cell st s dst cid mid ls))) = exits s.
+Proof. unfold send_cell. crush. Qed.
+
 (* activity_only_by_traffic: apart from the processing of a cell (ERecvCell, and the handler bodies / tasks
    it defers, ERun) and the creation of an own circuit, no event creates an entry or advances an activity
    stamp - not the timers, not a destroy, not the node's own pings or data, not datagrams from outside *)
@@ -112,6 +115,27 @@ Proof.
     pose proof (send_cell_no_activity s1 (e_peer e) cid MSG_DATA ls) as X.
     destruct (send_cell st s1 (e_peer e) cid MSG_DATA ls) as [[s2 o] l]. simpl in *.
     eapply no_activity_trans; eauto.
+Qed.
+
+(* datagrams that reach an exit socket from the outside world are counted (bytes_down) and tunnelled back,
+   but they are not activity: every entry - the exit socket itself included - keeps its activity stamp *)
+Lemma outside_no_activity_l s cid len allowed ls : no_activity s (fst (step_at st s (EOutside cid len allowed ls))).
+Proof. apply quiet_events_no_activity_l. reflexivity. Qed.
+
+Lemma outside_exit_stamp_l s cid len allowed ls e' :
+  aget cid (exits (fst (step_at st s (EOutside cid len allowed ls)))) = Some e' ->
+  exists e, aget cid (exits s) = Some e /\ la (e_ro e') = la (e_ro e) /\ down (e_ro e') = down (e_ro e) + len.
+Proof.
+  cbn [step_at]. destruct (aget cid (exits s)) as [e|] eqn:Ee; [|simpl; congruence].
+  intro H. exists e. split; [reflexivity|].
+  assert (G : aget cid (exits (set_exits (aset cid (e_with_ro (ro_down len) e) (exits s)) s)) = Some e' ->
+              la (e_ro e') = la (e_ro e) /\ down (e_ro e') = down (e_ro e) + len).
+  { simpl. rewrite aget_aset, Z.eqb_refl. intro X; inversion X; subst e'. simpl. auto. }
+  destruct allowed; [|apply G; exact H].
+  apply G.
+  match type of H with context [send_cell st ?S1 ?a ?b ?c ?d] =>
+    pose proof (send_cell_exits' S1 a b c d) as X; destruct (send_cell st S1 a b c d) as [[s2 o] l] end.
+  simpl in *. rewrite X in H. exact H.
 Qed.
 
 (* ================================================================ the exit's outside sockets *)
@@ -193,7 +217,8 @@ Lemma handle_exits_kept s src cid m ls :
 Proof.
   destruct m as [ident|ident v p|ident|ident v p|a b c len| | |mid]; simpl; try (apply sockets_kept_same; reflexivity).
   - destruct (aget ident (creates s)) as [cc|].
-    + destruct (aget (cc_from cc) (exits s)); [|apply sockets_kept_same; reflexivity].
+    + destruct (ahas (cc_from cc) (relays s)); [apply sockets_kept_same; reflexivity|].
+      destruct (aget (cc_from cc) (exits s)); [|apply sockets_kept_same; reflexivity].
       apply sockets_kept_same. rewrite send_cell_exits. reflexivity.
     + destruct (aget cid (retries s)) as [rt|]; [|apply sockets_kept_same; reflexivity].
       destruct (rt_ident rt =? ident); [|apply sockets_kept_same; reflexivity].
@@ -413,7 +438,8 @@ Lemma handle_routes s src cid m ls : routes_cont s (fst (fst (handle st s src ci
 Proof.
   destruct m as [ident|ident v p|ident|ident v p|a b c len| | |mid]; simpl; try (apply routes_same; reflexivity).
   - destruct (aget ident (creates s)) as [cc|].
-    + destruct (aget (cc_from cc) (exits s)); [|apply routes_same; reflexivity].
+    + destruct (ahas (cc_from cc) (relays s)); [apply routes_same; reflexivity|].
+      destruct (aget (cc_from cc) (exits s)); [|apply routes_same; reflexivity].
       match goal with |- routes_cont s (fst (fst (send_cell st ?S3 _ _ _ _))) => set (s3 := S3) end.
       apply (routes_trans s s3); [|reflexivity | apply send_cell_routes].
       unfold s3.
@@ -442,7 +468,8 @@ Lemma handle_now' s src cid m ls : now (fst (fst (handle st s src cid m ls))) = 
 Proof.
   destruct m; simpl; try reflexivity.
   - destruct (aget ident (creates s)) as [cc|].
-    + match goal with |- context [match ?x with _ => _ end] => destruct x end; [|reflexivity].
+    + destruct (ahas (cc_from cc) (relays s)); [reflexivity|].
+      destruct (aget (cc_from cc) (exits s)); [|reflexivity].
       rewrite send_cell_now'. reflexivity.
     + destruct (aget cid (retries s)) as [rt|]; [|reflexivity].
       destruct (rt_ident rt =? ident); [|reflexivity].
